@@ -21,6 +21,10 @@ Decided:
          reads; evaluated on four standard tracebacks (builtin, module-qualified and __main__ exception classes, text
          and bytes, a SyntaxError report) the parser names exactly the exception type and message (the evaluator
          understands a side-effect free subset of Python; outside it this part is declined, never guessed).
+  R20.e  the launcher (server.py) builds the failsafe from what it collected: the function calling flaw.create_app
+         passes its own (error text, file list) parameters in that order, and the list restart_with_reloader hands to
+         the error hook is filled *in place* from the child's report -- no nested function or helper rebinds it as a
+         local of its own.
 Declined: "answers 200 for every text" over non-text inputs; traceback grammars beyond the evaluated samples.
 
 The constructs are located by role: the Application(...) call create_app returns, its routes / resources /
@@ -2115,10 +2119,105 @@ def _parser_semantics(rep, fs):
                   flaw, fsf.node)
 
 
+# ------------------------------------------------------------------------------------------------ R20.e the launcher
+def _stores_name(fnode, name):
+    """Plain (re)bindings of ``name`` in a function body (its own scope): assignments, for / with / except targets."""
+    out = []
+    declared = set()
+    for n in walk_body(fnode):
+        if isinstance(n, (ast.Nonlocal, ast.Global)):
+            declared.update(n.names)
+    if name in declared:
+        return []
+    for st, v, idx in assigned_value(fnode, name):
+        if isinstance(st, ast.AugAssign):
+            continue            # xs += [...] extends the same list
+        out.append(st)
+    return out
+
+
+def _launcher_handover(rep, fs):
+    """R20.e: the development server gives the failsafe the error text and the file list the child reported."""
+    repo = fs.repo
+    server = repo.mod('clastic.server')
+    rep.rule('R20.e', 'the launcher passes the error text and the monitored-file list it collected on to flaw.create_app')
+    cparams = fs.ca.params()
+    if len(cparams) < 2:
+        raise AnalysisError('create_app has fewer than two parameters')
+    builders = [(fi, c) for q, fi in sorted(server.functions.items()) for c in walk_body(fi.node)
+                if isinstance(c, ast.Call) and call_tail(c) == 'create_app']
+    if not builders:
+        raise AnalysisError('server.py: no call of flaw.create_app found')
+    for fi, c in builders:
+        a0, a1 = argn(c, cparams[0], 0), argn(c, cparams[1], 1)
+        ps = fi.params()
+        p0 = _param_behind(fi, a0) if a0 is not None else None
+        p1 = _param_behind(fi, a1) if a1 is not None else None
+        ok = p0 is not None and p1 is not None and p0 != p1 and ps.index(p0) < ps.index(p1)
+        rep.check('R20.e', fkey(fi, 'create_app arguments'), ok,
+                  'the failsafe is built from the error text and the file list this function was given' if ok else
+                  'create_app is not called with (error text, monitored files) as received: %s' % short(c, 80), server, c)
+    rwr = server.func('restart_with_reloader')
+    hooks = [c for c in walk_body(rwr.node) if isinstance(c, ast.Call) and isinstance(c.func, ast.Name) and c.func.id in rwr.params()
+             and len(c.args) + len(c.keywords) == 2 and not c.keywords]
+    if len(hooks) != 1:
+        raise AnalysisError('restart_with_reloader: call of the error hook (text, files) not found')
+    X = _canon_name(rwr, hooks[0].args[1])
+    if X is None or X in rwr.params():
+        raise AnalysisError('restart_with_reloader: the file list given to the error hook is not a local')
+    problems = []
+    updated = False
+    from .. import effects
+    scopes_ = [rwr] + [fi for q, fi in sorted(server.functions.items()) if q.startswith(rwr.qualname + '.')]
+    for fi in scopes_:
+        if fi is not rwr and X not in fi.params():
+            for st in _stores_name(fi.node, X):
+                problems.append((fi, st, 'the nested function %s rebinds %s as its own local (%s): the list handed to the error hook '
+                                 'never sees the files the child reported' % (fi.qualname, X, short(st, 60))))
+        if fi is rwr or X not in fi.params():
+            for e in effects.effects_in(fi.node):
+                if e.root == X and ((e.kind == 'store' and isinstance(e.target, ast.Subscript)) or
+                                    (e.kind == 'mutcall' and e.method in ('extend', 'append', 'insert'))):
+                    updated = True
+        # module functions that are handed the list: directly, or through functools.partial(f, ..., X, ...)
+        for c in walk_body(fi.node):
+            if not isinstance(c, ast.Call):
+                continue
+            args, callee = list(c.args), c.func
+            if call_tail(c) == 'partial' and c.args:
+                callee, args = c.args[0], list(c.args[1:])
+            if not isinstance(callee, ast.Name) or (fi is not rwr and X in fi.params()):
+                continue
+            try:
+                kind, m, g = repo.resolve(server, callee.id)
+            except Exception:
+                continue
+            if kind != 'func' or m is not server:
+                continue
+            gps = g.params()
+            for i, a in enumerate(args):
+                if isinstance(a, ast.Name) and a.id == X and i < len(gps):
+                    for st in _stores_name(g.node, gps[i]):
+                        problems.append((g, st, '%s rebinds its parameter %s (%s): the caller\'s list, which is handed to the error '
+                                         'hook, never sees the files the child reported' % (g.qualname, gps[i], short(st, 60))))
+                    for e in effects.effects_in(g.node):
+                        if e.root == gps[i] and ((e.kind == 'store' and isinstance(e.target, ast.Subscript)) or
+                                                 (e.kind == 'mutcall' and e.method in ('extend', 'append', 'insert'))):
+                            updated = True
+    for fi, st, why in problems:
+        rep.fail('R20.e', fkey(fi, st), why, server, st)
+    if not problems:
+        if not updated:
+            raise AnalysisError('restart_with_reloader: no in-place update of the monitored-file list %s found' % X)
+        rep.ok('R20.e', fkey(rwr, 'file list %s' % X), 'the list given to the error hook is the one filled in place from the child\'s report',
+               server, hooks[0])
+
+
 def run(rep):
     repo = rep.repo
     rep.decide('R20.a names resolve; R20.b parser cannot prevent the page, route/template/resource agreement; '
-               'R20.c template auto-escapes every reference; R20.d parsed branch reachable and fed')
+               'R20.c template auto-escapes every reference; R20.d parsed branch reachable and fed; '
+               'R20.e the launcher hands over the collected text and file list')
     rep.decline('totality over non-text inputs (bytes/None through ashes); coverage of traceback grammars')
     rep.assume('ashes 19.2.0 filter semantics as read from the pinned source (apply_filters)')
     fs = _Failsafe(repo)
@@ -2134,3 +2233,4 @@ def run(rep):
     _group(rep, _template_escapes, rep, fs)
     _group(rep, _parser_semantics, rep, fs)
     _group(rep, _parsed_branch, rep, fs)
+    _group(rep, _launcher_handover, rep, fs)
